@@ -191,6 +191,14 @@ def gen_cases(r, tier, n_random=8):
         for dec in (["max", 4], ["pi", 5], ["full", 3]):
             for _ in range(2 if not big else 6):
                 cases.append({"op": "rep", "decl": d, "rep": {"kind": "tree", "decider": dec}, "seed": r.randrange(10**6), "ops": breeding_ops(6 if not big else 12)})
+    # lineages: map a genotype, mutate it, map the offspring (which may need more genes than its parent had), and so on
+    for d in (fam[0], fam[3], fam[1]):
+        for rep in ({"kind": "dsge", "max_depth": 4}, {"kind": "dsge", "max_depth": 6}, {"kind": "sge", "decider": ["max", 4], "gene_length": 5}):
+            for _ in range(2 if not big else 6):
+                ops = [["create"], ["map", 0]]
+                for i in range(8):
+                    ops += [["mutate", i], ["map", i + 1], ["map", i]]
+                cases.append({"op": "rep", "decl": d, "rep": rep, "seed": r.randrange(10**6), "ops": ops})
     for _ in range(n_random if not big else 5 * n_random):
         d = grammars.gen_decl(r, {"weights": False, "tuples": True, "dependent": False})
         for rep in r.sample(rep_specs(r), 2):
